@@ -426,7 +426,8 @@ func (c *evalCtx) valEq(a, b Value) *Term {
 	switch av := a.(type) {
 	case Sc:
 		if av.T.IsBV() || scT(b).IsBV() {
-			return Eq(toBV32(c, av.T), toBV32(c, scT(b)))
+			w := bvOpWidth(av.T, scT(b))
+			return Eq(toBVw(c, av.T, w), toBVw(c, scT(b), w))
 		}
 		return Eq(av.T, scT(b))
 	case Fn:
@@ -598,6 +599,16 @@ func (c *evalCtx) callExpr(n *ast.CallExpr) Value {
 			c.errf("haskey: not a map")
 		}
 		return Sc{c.x.mapHas(c.heap, mv, c.rv(c.eval(arg(1))))}
+	case "setbe16":
+		// setbe16(s, i, v): the byte sequence s with bytes i, i+1 replaced by the big-endian encoding of v
+		sl, ok := c.rv(c.eval(arg(0))).(Sl)
+		if !ok {
+			c.errf("setbe16 of non-slice")
+		}
+		i, v := c.term(arg(1)), c.term(arg(2))
+		arr := c.x.contentArray(c.st, c.heap, sl)
+		arr = Store(Store(arr, Add(sl.O, i), Div(Mod(v, Int(65536)), Int(256))), Add(Add(sl.O, i), Int(1)), Mod(v, Int(256)))
+		return Sl{Arr: arr, O: sl.O, L: sl.L, C: sl.L, R: Int(-2), Elem: sl.Elem}
 	case "sameslice":
 		a, b := c.rv(c.eval(arg(0))).(Sl), c.rv(c.eval(arg(1))).(Sl)
 		return Sc{And(Eq(a.R, b.R), Eq(a.O, b.O), Eq(a.L, b.L), Eq(a.C, b.C))}
@@ -678,11 +689,27 @@ func (c *evalCtx) callExpr(n *ast.CallExpr) Value {
 		return Sc{WrapU(c.term(arg(0)), 16)}
 	case "uint8", "byte":
 		return Sc{WrapU(c.term(arg(0)), 8)}
-	case "xor8", "xor16", "xor32":
+	case "xor8", "xor16", "xor32", "xor64":
 		bits := 8
 		fmt.Sscanf(fname, "xor%d", &bits)
 		declareXor(bits)
 		a, b := c.term(arg(0)), c.term(arg(1))
+		if a.IsBV() || b.IsBV() {
+			// bit-vector mode (lemma proofs): the real exclusive-or on the low <bits> bits, zero-extended to 32/64
+			w := 32
+			if bits == 64 {
+				w = 64
+			}
+			ea, eb := toBVw(c, a, w), toBVw(c, b, w)
+			r := App("bvxor", bvSort(w), ea, eb)
+			if bits < w {
+				r = bvResize(App(fmt.Sprintf("(_ extract %d 0)", bits-1), bvSort(bits), r), bits, w, true)
+			}
+			if w == 64 {
+				return Sc{r}
+			}
+			return Sc{r}
+		}
 		if a.IsInt() && b.IsInt() {
 			return Sc{BigInt(new(big.Int).Xor(a.Val, b.Val))}
 		}
@@ -745,10 +772,11 @@ func (c *evalCtx) contentEq(a Sl, ca *evalCtx, b Sl, cb *evalCtx, n *Term) *Term
 		}
 		return And(cs...)
 	}
-	i := Sym(fresh("i"), SInt)
-	l := Select(aa, Add(a.O, i))
-	r := Select(ba, Add(b.O, i))
-	return Forall([]*Term{i}, Implies(And(Le(Int(0), i), Lt(i, n)), Eq(l, r)))
+	// quantify over the absolute index into a's backing array (see the shift in forall())
+	pv := Sym(fresh("i.abs"), SInt)
+	l := Select(aa, pv)
+	r := Select(ba, Add(b.O, Sub(pv, a.O)))
+	return Forall([]*Term{pv}, Implies(And(Le(a.O, pv), Lt(pv, Add(a.O, n))), Eq(l, r)))
 }
 
 // ---- spec functions ----
@@ -824,20 +852,35 @@ func (c *evalCtx) specApp(sf *SpecFun, n *ast.CallExpr) Value {
 
 // ---- bit-vector mode: contract arithmetic is 32-bit modular on zero-extended operands ----
 
-func toBV32(c *evalCtx, t *Term) *Term {
+// bvArithWidth: contract arithmetic width in bit-vector mode (64 when a 64-bit operand is involved).
+func toBVw(c *evalCtx, t *Term, w int) *Term {
 	switch {
 	case t.IsInt():
-		return bvConst(t.Val, 32)
+		return bvConst(t.Val, w)
 	case t.IsBV():
-		return bvResize(t, bvWidth(t.Sort), 32, true)
+		return bvResize(t, bvWidth(t.Sort), w, true)
 	}
 	c.errf("cannot use %s in bit-vector arithmetic", t)
 	return nil
 }
 
+func toBV32(c *evalCtx, t *Term) *Term { return toBVw(c, t, 32) }
+
+func bvOpWidth(a, b *Term) int {
+	w := 32
+	if a.IsBV() && bvWidth(a.Sort) > w {
+		w = bvWidth(a.Sort)
+	}
+	if b.IsBV() && bvWidth(b.Sort) > w {
+		w = bvWidth(b.Sort)
+	}
+	return w
+}
+
 func bvContractOp(c *evalCtx, op token.Token, a, b *Term) *Term {
-	x, y := toBV32(c, a), toBV32(c, b)
-	s := bvSort(32)
+	w := bvOpWidth(a, b)
+	x, y := toBVw(c, a, w), toBVw(c, b, w)
+	s := bvSort(w)
 	switch op {
 	case token.ADD:
 		return App("bvadd", s, x, y)
@@ -868,4 +911,60 @@ func bvContractOp(c *evalCtx, op token.Token, a, b *Term) *Term {
 	}
 	c.errf("operator %s not supported in bit-vector contracts", op)
 	return nil
+}
+
+// resolvable: every free identifier of e that is not a contract function, define, spec
+// function, field name or package-level object is bound in this context.
+func (c *evalCtx) resolvable(e ast.Expr) bool {
+	ok := true
+	bound := map[string]bool{}
+	var visit func(n ast.Node) bool
+	visit = func(n ast.Node) bool {
+		switch v := n.(type) {
+		case *ast.CallExpr:
+			if id, isID := v.Fun.(*ast.Ident); isID {
+				if (id.Name == "forall" || id.Name == "exists" || id.Name == "forallint") && len(v.Args) > 0 {
+					if bid, isB := v.Args[0].(*ast.Ident); isB {
+						bound[bid.Name] = true
+					}
+				}
+				if id.Name == "fieldslice" || id.Name == "ghost" {
+					if len(v.Args) > 0 {
+						ast.Inspect(v.Args[0], visit)
+					}
+					return false
+				}
+				for _, a := range v.Args {
+					ast.Inspect(a, visit)
+				}
+				return false
+			}
+		case *ast.SelectorExpr:
+			ast.Inspect(v.X, visit)
+			return false
+		case *ast.Ident:
+			switch v.Name {
+			case "true", "false", "nil":
+				return true
+			}
+			if bound[v.Name] {
+				return true
+			}
+			if _, found := c.lookupName(v.Name); found {
+				return true
+			}
+			if c.pkg != nil && c.pkg.Scope().Lookup(v.Name) != nil {
+				return true
+			}
+			for _, pk := range c.x.p.prog.AllPackages() {
+				if pk.Pkg.Name() == v.Name {
+					return true
+				}
+			}
+			ok = false
+		}
+		return true
+	}
+	ast.Inspect(e, visit)
+	return ok
 }
